@@ -62,7 +62,7 @@ var c20badConfigs = map[string]string{
 
 func TestC20(t *testing.T) {
 	e := vlib.GetEnv()
-	n := e.Pick(160, 4000)
+	n := e.Pick(160, 60000)
 	fileNames := []string{"hook", "hook", "a", "b.sh", "run.py", "x.yaml", "x.yaml.sh", "README.md", "notes.txt", "data.json", ".hidden", ".env.sh", "with space", "lib", "lib.sh", "Zed", "001-first", "conf.yml", "t.TXT"}
 	dirNames := []string{"a", "b", "lib", "lib", "libx", "mylib", ".git", ".hidden", "001-dir", "sp ace", "Z", "sub"}
 	modes := []os.FileMode{0o644, 0o755, 0o755, 0o700, 0o100, 0o010, 0o001, 0o666, 0o444, 0o555}
